@@ -145,7 +145,61 @@ def _sub_inits_as_constants(model):
                 if a.type == onnx.AttributeProto.GRAPH:
                     fix(a.g, True)
     fix(m.graph, False)
+    _uniquify_sibling_scopes(m.graph, set(), "")
     return m
+
+
+def _uniquify_sibling_scopes(g, outer_visible, path):
+    """wf_graphb asks for names that are unique in the whole model; ONNX only forbids a subgraph to redefine a name of an
+    enclosing scope, sibling subgraphs may reuse names (the graph-local name authority of onnx_ir produces val_0 in each of
+    them).  Names defined inside a subgraph that do not shadow a visible outer name are prefixed with the path of the
+    subgraph (consistently: definitions, uses, nested uses, outputs); a name that does shadow an outer one is left alone,
+    so that wf_graphb still rejects it."""
+    local = [i.name for i in g.input] + [i.name for i in g.initializer] + [o for n in g.node for o in n.output]
+    ren = {}
+    if path:
+        for x in local:
+            if x and x not in outer_visible:
+                ren[x] = f"{path}::{x}"
+    _apply_renaming(g, ren)
+    visible = set(outer_visible) | {ren.get(x, x) for x in local}
+    k = 0
+    for n in g.node:
+        for a in n.attribute:
+            if a.type == onnx.AttributeProto.GRAPH:
+                k += 1
+                _uniquify_sibling_scopes(a.g, visible, f"{path}/{n.op_type}{k}.{a.name}")
+
+
+def _apply_renaming(g, ren):
+    """rename in graph g and, for uses only, in the graphs nested in it (their own definitions are handled when visited)"""
+    if not ren:
+        return
+    for i in g.input:
+        i.name = ren.get(i.name, i.name)
+    for i in g.initializer:
+        i.name = ren.get(i.name, i.name)
+    for o in g.output:
+        o.name = ren.get(o.name, o.name)
+    for v in g.value_info:
+        v.name = ren.get(v.name, v.name)
+
+    def uses(gr, shadow):
+        for n in gr.node:
+            for j, x in enumerate(n.input):
+                if x in ren and x not in shadow:
+                    n.input[j] = ren[x]
+            for a in n.attribute:
+                if a.type == onnx.AttributeProto.GRAPH:
+                    inner = {i.name for i in a.g.input} | {i.name for i in a.g.initializer} | {o for nn in a.g.node for o in nn.output}
+                    uses(a.g, shadow | inner)
+                    for o in a.g.output:
+                        if o.name in ren and o.name not in (shadow | inner):
+                            o.name = ren[o.name]
+    for n in g.node:
+        for j, x in enumerate(n.output):
+            n.output[j] = ren.get(x, x)
+    uses(g, set())
 
 
 def _changed_consumers(orig, opt, names):
@@ -216,8 +270,8 @@ def run(ctx):
                "the translator (tables, order of tests, guards) and the decision-trace correspondence")
     ctx.assume("wf_graphb asks for unique value names across all nested graphs, which is stronger than onnx.checker: it is required of the "
                "result only when it holds for the original model")
-    ctx.assume("declared output types may be refined by the optimizer (a symbolic dimension may become a value); element type, rank and declared "
-               "dimension values must be kept; declared input types must be identical")
+    ctx.assume("declared input / output types may be refined by the optimizer (a symbolic or unknown dimension may become the value that shape "
+               "inference derives); element type, rank, declared dimension values and the names of symbolic input dimensions must be kept")
     info = regenerate(ctx)
     ctx.check_props()
     ctx.build(["Opt/FoldInst.vo"])          # the executable instance used by the correspondence
